@@ -275,8 +275,8 @@ pub fn run(tier: Tier, seed: u64) -> i32 {
     }
     s.regress::<Scenario, _>("world", case);
     s.regress::<Meta13, _>("world-metamorphic", meta_case);
-    s.search("world-nontrampoline-only", "world", tier.pick(1200, 12000), c13_strategy, case);
-    s.search("world-metamorphic", "world-metamorphic", tier.pick(300, 3000), meta_strategy, meta_case);
+    s.search("world-nontrampoline-only", "world", tier.pick(1200, 30000), c13_strategy, case);
+    s.search("world-metamorphic", "world-metamorphic", tier.pick(300, 10000), meta_strategy, meta_case);
     if tier == Tier::Thorough {
         crate::e2e::c13_e2e(&mut s);
     }
